@@ -563,10 +563,10 @@ impl XType {
             Self::Compound(ct, spec, original_bind) => {
                 let mut new_bind = Bind::default();
                 for gen_name in spec.generic_names.iter(){
-                    new_bind.bound_generics.insert(*gen_name, 
-                        original_bind.get(gen_name)
-                        .unwrap() // todo is this safe?
-                        .resolve_bind(bind, tail));
+                    // a compound can be half bound (`Maybe::nothing(())` binds no T): such a parameter stays unbound
+                    if let Some(bound) = original_bind.get(gen_name) {
+                        new_bind.bound_generics.insert(*gen_name, bound.resolve_bind(bind, tail));
+                    }
                 }
                 Self::Compound(*ct, spec.clone(), new_bind).into()
             },
